@@ -186,6 +186,11 @@ type mstate struct {
 	sessionChecks [][3]string // node, check, session
 	peerings      []*pbpeering.Peering
 	bundles       []*pbpeering.PeeringTrustBundle
+	// the catalog / query tables of the shared store model (CV.Store)
+	nodes   []*structs.Node
+	svcs    []*structs.ServiceNode
+	chks    []*structs.HealthCheck
+	queries structs.PreparedQueries
 }
 
 func modelState(st *state.Store) *mstate {
@@ -206,6 +211,12 @@ func modelState(st *state.Store) *mstate {
 			m.peerings = append(m.peerings, v)
 		case *pbpeering.PeeringTrustBundle:
 			m.bundles = append(m.bundles, v)
+		case *structs.Node:
+			m.nodes = append(m.nodes, v)
+		case *structs.ServiceNode:
+			m.svcs = append(m.svcs, v)
+		case *structs.HealthCheck:
+			m.chks = append(m.chks, v)
 		default:
 			if table == "session_checks" {
 				rv := reflect.Indirect(reflect.ValueOf(item))
@@ -214,7 +225,95 @@ func modelState(st *state.Store) *mstate {
 		}
 		return true
 	})
+	_, m.queries, _ = st.PreparedQueryList(nil)
 	return m
+}
+
+// ---- encoders of the store-model tables (see lean/CV/Engine/C02.lean, op `rts`)
+
+func sjoin(xs ...string) string { return strings.Join(xs, ";") }
+func u64(x uint64) string       { return fmt.Sprint(x) }
+
+func (m *mstate) sNodes() string {
+	var t []string
+	for _, n := range m.nodes {
+		t = append(t, sjoin(hx.EncS(n.Node), hx.EncS(string(n.ID)), hx.EncS(n.Address), u64(n.CreateIndex), u64(n.ModifyIndex)))
+	}
+	return hx.EncList(t)
+}
+func (m *mstate) sSvcs() string {
+	var t []string
+	for _, v := range m.svcs {
+		t = append(t, sjoin(hx.EncS(v.Node), hx.EncS(v.ServiceID), hx.EncS(v.ServiceName), fmt.Sprint(v.ServicePort), u64(v.CreateIndex), u64(v.ModifyIndex)))
+	}
+	return hx.EncList(t)
+}
+func (m *mstate) sChks() string {
+	var t []string
+	for _, c := range m.chks {
+		t = append(t, sjoin(hx.EncS(c.Node), hx.EncS(string(c.CheckID)), hx.EncS(c.Status), hx.EncS(c.ServiceID), hx.EncS(c.ServiceName), hx.EncS(c.Type),
+			hx.EncS(c.Definition.SessionName), hx.EncS(c.Output), u64(c.CreateIndex), u64(c.ModifyIndex)))
+	}
+	return hx.EncList(t)
+}
+func (m *mstate) sSess() string {
+	var t []string
+	for _, x := range m.sessions {
+		beh := "r"
+		if x.Behavior == structs.SessionKeysDelete {
+			beh = "d"
+		}
+		var cs []string
+		for _, c := range x.CheckIDs() {
+			cs = append(cs, hx.EncS(string(c)))
+		}
+		t = append(t, sjoin(hx.EncS(x.ID), hx.EncS(x.Node), hx.EncS(x.Name), beh, fmt.Sprint(int64(x.LockDelay)), u64(x.CreateIndex), u64(x.ModifyIndex), strings.Join(cs, "+")))
+	}
+	return hx.EncList(t)
+}
+func (m *mstate) sKVs() string {
+	var t []string
+	for _, e := range m.kvs {
+		t = append(t, sjoin(hx.EncS(e.Key), hx.EncB(e.Value), u64(e.Flags), hx.EncS(e.Session), u64(e.LockIndex), u64(e.CreateIndex), u64(e.ModifyIndex)))
+	}
+	return hx.EncList(t)
+}
+func (m *mstate) sPQs() string {
+	var t []string
+	for _, q := range m.queries {
+		t = append(t, sjoin(hx.EncS(q.ID), hx.EncS(q.Session), u64(q.CreateIndex), u64(q.ModifyIndex)))
+	}
+	return hx.EncList(t)
+}
+
+// sIndex: the index table as the store model keeps it — keys lower-cased (memdb's identity of an index row;
+// the spelling of the stored Key is compared by the `rt` line of the stand-alone instance)
+func (m *mstate) sIndex() string {
+	var t []string
+	for _, e := range m.index {
+		t = append(t, hx.EncS(strings.ToLower(e.Key))+";"+fmt.Sprint(e.Value))
+	}
+	return hx.EncList(t)
+}
+
+// inStoreFragment: only rows the base store model can express (local, typical, non-connect services)
+func (m *mstate) inStoreFragment() bool {
+	for _, n := range m.nodes {
+		if n.PeerName != "" {
+			return false
+		}
+	}
+	for _, v := range m.svcs {
+		if v.PeerName != "" || v.ServiceKind != structs.ServiceKindTypical || v.ServiceConnect.Native {
+			return false
+		}
+	}
+	for _, c := range m.chks {
+		if c.PeerName != "" {
+			return false
+		}
+	}
+	return true
 }
 
 func payload(x any) string {
@@ -716,7 +815,7 @@ func main() {
 	witnesses := map[string]*witness{}
 	cutsDone := 0
 
-	runHistory := func(hi int, label string, h []entry, cuts []int, sample bool) {
+	runHistory := func(hi int, label string, h []entry, cuts []int, sample bool, storeTie bool) {
 		// tag what the history did (results on a scratch server)
 		{
 			s := newServer()
@@ -774,6 +873,27 @@ func main() {
 					}
 				}
 			}
+			// store-model correspondence line: restoreS (snapshotS s) of CV.Store.Snap against the restored tables
+			if storeTie && res.pre != nil && res.post != nil && res.pre.inStoreFragment() {
+				op := fmt.Sprintf("rts %s %s %s %s %s %s %s %s", res.pre.sNodes(), res.pre.sSvcs(), res.pre.sChks(), res.pre.sSess(), res.pre.sKVs(),
+					res.pre.encTombs(), res.pre.sPQs(), res.pre.sIndex())
+				impl := fmt.Sprintf("ok last=%d nodes=%s svcs=%s chks=%s sess=%s sc=%s kvs=%s tombs=%s pqs=%s idx=%s", res.last, res.post.sNodes(), res.post.sSvcs(),
+					res.post.sChks(), res.post.sSess(), res.post.encSessionChecks(), res.post.sKVs(), res.post.encTombs(), res.post.sPQs(), res.post.sIndex())
+				run.Line(op, impl)
+				run.Tag("rts:line")
+				if len(res.pre.svcs) > 0 {
+					run.Tag("rts:services")
+				}
+				if len(res.pre.chks) > 0 {
+					run.Tag("rts:checks")
+				}
+				if len(res.pre.sessions) > 0 {
+					run.Tag("rts:sessions")
+				}
+				if len(res.pre.queries) > 0 {
+					run.Tag("rts:queries")
+				}
+			}
 			if sample && ci == len(cuts)-1 {
 				run.Sample(map[string]any{"history": label, "entries": len(h), "cut": k, "snapshot_bytes": res.snapLen,
 					"rows": res.dumpA.rows(), "header_last_index": res.last, "findings": len(res.findings)})
@@ -800,7 +920,7 @@ func main() {
 			cuts = append(cuts, k)
 		}
 		run.Tag("scenario:" + sc.name)
-		runHistory(-1, "scenario:"+sc.name, sc.h, cuts, false)
+		runHistory(-1, "scenario:"+sc.name, sc.h, cuts, false, strings.HasPrefix(sc.name, "store-"))
 	}
 
 	for hi := 0; hi < nHist; hi++ {
@@ -827,7 +947,7 @@ func main() {
 			}
 			sort.Ints(cuts)
 		}
-		runHistory(hi, fmt.Sprintf("%s#%d", profile, hi), h, cuts, hi < 4)
+		runHistory(hi, fmt.Sprintf("%s#%d", profile, hi), h, cuts, hi < 4, profile == "store" || profile == "kv")
 	}
 
 	// one violation per signature, with a shrunk witness
